@@ -14,6 +14,14 @@ def compile(r: str):
     transitions = [[]]
     stack = [expr]
 
+    # Make sure the error state exists, also when it cannot be reached
+    # from the start state (for example for '.*').
+    if expr.null not in state_numbers:
+        states.append(expr.null)
+        state_numbers[expr.null] = len(state_numbers)
+        transitions.append([])
+        stack.append(expr.null)
+
     while stack:
         state = stack.pop()
         state_number = state_numbers[state]
